@@ -82,14 +82,29 @@ class Gate:
         import queue
 
         self.names_by_tag = names_by_tag
-        self.arrivals = queue.Queue()
+        self._queue = queue
+        self.arrivals = {}  # tag -> Queue of (name, fields): a thread may arrive unprompted
         self.events = {}
         self.open = False
+        self._lock = threading.Lock()
+
+    def _q(self, tag):
+        with self._lock:
+            if tag not in self.arrivals:
+                self.arrivals[tag] = self._queue.Queue()
+            return self.arrivals[tag]
+
+    def post(self, tag, name, fields):
+        self._q(tag).put((name, fields))
+
+    def wait(self, tag, timeout):
+        """-> (name, fields) of the next arrival of that thread; raises queue.Empty"""
+        return self._q(tag).get(timeout=timeout)
 
     def arrive(self, tag, name, fields):
         ev = threading.Event()
         self.events[tag] = ev
-        self.arrivals.put((tag, name, fields))
+        self.post(tag, name, fields)
         if not self.open:
             ev.wait(20.0)
 
